@@ -86,6 +86,8 @@ def _qval(x):
 
 
 def _pyval(v):
+    if v == 4:
+        return None
     return 0 if v == 3 else v
 
 
